@@ -291,7 +291,7 @@ def _steadystate_svd(L, **kw):
     u, s, vh = _data.svd(L.data, True)
     vec = _data.split_columns(vh.adjoint())[-1]
     rho = _data.column_unstack(vec, n)
-    rho = Qobj(rho, dims=L._dims[0].oper, isherm=True)
+    rho = Qobj(rho, dims=L._dims[0].oper)
     return rho / rho.tr()
 
 
